@@ -254,16 +254,16 @@ static void checkCase(verif::Run& run, const Case& cs) {
 
 int main(int argc, char** argv) {
     verif::Run run("C14", argc, argv);
-    run.setDeadline(200, 2400);
+    run.setDeadline(400, 2400);   // safety net only
     const bool th = run.thorough();
-    run.rule = "E3: models = level A (every KINDxDIRxFRAMES variant, incl. Weld, as base/middle/tip/fork-branch of a 3-body tree with companions {Pin,Ball,Free}^2) plus the massless-middle-body variant of every role-1 model (kept when the mass matrix stays SPD with cond<1e7, else counted as not legal); x COORD{quaternion,Euler} x STATE(quick: generic, zero-velocity; thorough: 4 kinds x 3 value sets) x MASS(quick 1, thorough 3) x FORCE{gravity; gravity+point force+torque on every body+mobility force on every u; mobility forces only} x CONS{none, Rod(Ground-tip), Ball constraint(base-tip / siblings), ConstantSpeed on the variant, Motion::Steady, acceleration-level Custom Motion, lock}; distinct = distinct tuple; non-trivial = legal and not skipped for nu=0";
+    run.rule = "E3: models = level A (every KINDxDIRxFRAMES variant, incl. Weld, as base/middle/tip/fork-branch of a 3-body tree with companions {Pin,Ball,Free}^2) plus the massless-middle-body variant of every role-1 model (kept when the mass matrix stays SPD with cond<1e7, else counted as not legal); x COORD{quaternion,Euler} x STATE(quick: generic, zero-velocity; thorough: 4 kinds x 3 value sets) x MASS(variant's mass kind = seed%3; thorough: rotated with the value set so that all 3 occur; companions always carry kinds 0,1,2) x FORCE{gravity; gravity+point force+torque on every body+mobility force on every u; mobility forces only} x CONS{none, Rod(Ground-tip), Ball constraint(base-tip / siblings), ConstantSpeed on the variant, Motion::Steady, acceleration-level Custom Motion, lock}; distinct = distinct tuple; non-trivial = legal and not skipped for nu=0";
     run.assumptions = {"continuous values only from the fixed tables in engine/models.h and the constants in this harness",
                        "trees of 3 mobilized bodies", "reported poses/velocities/accelerations are inputs (their correctness is C02/C03/C05's business)",
                        "constraint body forces are taken from calcConstraintForcesFromMultipliers with the documented sign; constraint and prescribed-motion mobility forces are part of the reaction (documented convention)",
                        "relative tolerance 1e-10 against the largest term of each balance"};
     std::vector<int> valueSets = th ? std::vector<int>{0, 1, 2} : std::vector<int>{(int)(((run.seed % 3) + 3) % 3)};
     std::vector<int> states = th ? std::vector<int>{0, 1, 2, 3} : std::vector<int>{1, 3};
-    const int nMass = th ? 3 : 1;
+    const int nMass = 1;   // the variant's mass kind: quick = seed%3; thorough = (value set + seed)%3, so all three kinds occur
     mb::LevelA A;
     auto section = [&](const std::string& name, bool massless) {
         std::vector<int64_t> models;                    // massless: only the middle body of a chain (role 1)
@@ -277,7 +277,7 @@ int main(int argc, char** argv) {
             const int64_t mi = models[d[6]];
             const int role = (int)((mi / 9) % 4);
             Case cs;
-            cs.specs = A.specs(mi, massless ? 0 : (d[4] + (int)(((run.seed % 3) + 3) % 3)) % 3);
+            cs.specs = A.specs(mi, massless ? 0 : (d[4] + (th ? valueSets[d[5]] : 0) + (int)(((run.seed % 3) + 3) % 3)) % 3);
             cs.euler = d[3] == 1; cs.stateKind = states[d[2]]; cs.valueSet = valueSets[d[5]]; cs.forcePattern = d[1]; cs.cons = d[0];
             cs.variant = role == 0 ? 0 : role == 2 ? 2 : 1; cs.massless = massless;
             cs.desc = name + " " + od.describe(idx) + " levelA=" + std::to_string(mi) + " cons=" + consName(cs.cons) + " ";
